@@ -2,7 +2,7 @@
 import math
 
 import envelope as E
-from common import compare_gen, is_real_finite, same_float
+from common import compare_gen, is_real_finite, same_float, time_limit, CallTimeout
 
 ID = 'C06'
 LEAN_MODULES = ['Dhlldv.Props.C06']
@@ -106,7 +106,8 @@ def monitor(ctx, extended=False):
                 for ms in pre:
                     F.LDV(a[0], *a[1:], max_steps=ms)
                 inp['earlier_calls_max_steps'] = pre
-            vals = [F.LDV(v, *a[1:]) for v in (a[0], 0.1, 1.0, 4.3, 10.0)]
+            with time_limit(20):
+                vals = [F.LDV(v, *a[1:]) for v in (a[0], 0.1, 1.0, 4.3, 10.0)]
             if not all(is_real_finite(x) and x > 0 for x in vals):
                 ctx.violation(f'LDV not finite and positive: {vals}', inp, key='positive')
                 continue
@@ -118,8 +119,31 @@ def monitor(ctx, extended=False):
             classes.add(which)
             if not err < 1e-3:
                 ctx.violation(f'LDV {vals[0]!r} is {err:.3%} off the converged solution {conv!r} ({which})', inp, key='converged')
+        except CallTimeout:
+            ctx.violation('LDV did not return within 20 s', inp, key='no-return')
+            ctx.count('timeouts')
+            if ctx.stats.get('timeouts', 0) >= 3:
+                break
         except Exception as e:   # noqa
             ctx.violation(f'raised {type(e).__name__}: {e}', inp, key='raised')
+    # the corner where the default budget has the least margin (found with a one-step-smaller budget): light, fine, lean solids in a small smooth pipe
+    for Dp in (0.1, 0.1025, 0.105):
+        for eps in (1.5e-6, 5e-6):
+            for rhos in (2.0, 2.13):
+                for nu in (0.92e-6, 0.94e-6):
+                    dl = max(E.dlim(Dp, nu, 0.999, rhos), 5e-5)
+                    for fd in (1.0, 1.1, 1.2, 1.3):
+                        a = (1.0, Dp, dl * fd, eps, nu, 0.999, rhos, 0.02)
+                        ctx.count('evaluations')
+                        try:
+                            v = F.LDV(*a)
+                            conv, which = converged_LDV(*a[1:])
+                            err = abs(v - conv) / conv
+                            worst = max(worst, err)
+                            if not (is_real_finite(v) and v > 0 and err < 1e-3):
+                                ctx.violation(f'LDV {v!r} is {err:.3%} off the converged solution {conv!r} ({which})', {'args': list(a)}, key='converged')
+                        except Exception as e:   # noqa
+                            ctx.violation(f'raised {type(e).__name__}: {e}', {'args': list(a)}, key='raised')
     # vls = None / 0 are legal for an argument documented as unused
     for v in (None, 0, 0.0):
         a = ldv_point(ctx.rng)
